@@ -503,18 +503,65 @@ func soup(r *rng.R, n int) string {
 }
 
 func negAtom(r *rng.R) (string, string) {
-	switch r.Intn(4) {
+	switch r.Intn(5) {
 	case 0:
 		return r.Pick(atomSoup), "listed"
 	case 1:
 		return soup(r, r.Heavy(24)), "soup"
+	case 2: // a valid atom followed by one or two bytes that cannot continue it (parsed as a whole string)
+		junk := []string{"]", "[", "(", ")", "?", ",", " ", "\x00", "@", "!", "\n", "[]", "[x", "]]", ")(", "\xff", "~", "<"}
+		return genAtom(r, r.Bool(), false).String() + r.Pick(junk), "trailing"
 	default:
 		return mutateBytes(r, genAtom(r, r.Bool(), true).String()), "mutated"
 	}
 }
 
+// one token of a valid string gets an extra byte glued on (or loses one): under the correct
+// tokenizer the string is an error; a tokenizer that is sloppy about token length accepts it
+func extendToken(r *rng.R, t string) string {
+	glue := []string{"(", ")", "|", "?", "^", "x", "!", "1"}
+	switch {
+	case len(t) > 1 && r.Chance(1, 4):
+		return t[:len(t)-1]
+	case r.Bool():
+		return t + r.Pick(glue)
+	default:
+		return r.Pick(glue) + t
+	}
+}
+
 func negDep(r *rng.R) (string, string) {
-	switch r.Intn(6) {
+	switch r.Intn(8) {
+	case 6: // a structural token made longer or shorter
+		var toks []string
+		for n := 1 + r.Heavy(2); n > 0; n-- {
+			toks = append(toks, genDast(r, 1+r.Heavy(2)).Tokens()...)
+		}
+		var idx []int
+		for i, t := range toks {
+			if t == "(" || t == ")" || t == "||" || t == "^^" || t == "??" || strings.HasSuffix(t, "?") {
+				idx = append(idx, i)
+			}
+		}
+		if len(idx) > 0 {
+			i := idx[r.Intn(len(idx))]
+			toks[i] = extendToken(r, toks[i])
+		}
+		return joinWS(r, toks), "token-extension"
+	case 7: // a USE conditional directly followed by an atom (known finding 1) inside a valid string
+		var toks []string
+		for n := r.Heavy(2); n > 0; n-- {
+			toks = append(toks, genDast(r, r.Heavy(2)).Tokens()...)
+		}
+		flag := r.Pick(flagNames) + "?"
+		if r.Bool() {
+			flag = "!" + flag
+		}
+		toks = append(toks, flag, genAtom(r, true, true).String())
+		for n := r.Heavy(2); n > 0; n-- {
+			toks = append(toks, genDast(r, r.Heavy(2)).Tokens()...)
+		}
+		return joinWS(r, toks), "bare-use-conditional"
 	case 0:
 		return soup(r, r.Heavy(40)), "soup"
 	case 1, 2: // token soup
@@ -591,6 +638,9 @@ func Generate(r *rng.R, tier string, n int, emit func(*common.Case)) {
 			var t string
 			t, in.Stream = negAtom(cr)
 			in.Text = B(t)
+			if in.Stream == "trailing" {
+				in.AsDep = false
+			}
 		case k < 8: // well-formed dependency strings
 			in.Kind, in.Stream = "dep", "grammar"
 			var items []*Dast
